@@ -124,7 +124,14 @@ func runC36(c *an.Ctx) {
 	}}
 	v := an.Guarded(c.P, save, []*an.Guard{sizeCmp}, isAdd, false)
 	afterLock := true
-	for _, val := range an.FindValues(save, sizeCmp.MatchValue) {
+	findAll := func(match func(ssa.Value) bool) []ssa.Value {
+		var out []ssa.Value
+		for _, g := range an.InlineReach(save) {
+			out = append(out, an.FindValues(g, match)...)
+		}
+		return out
+	}
+	for _, val := range findAll(sizeCmp.MatchValue) {
 		if ok, _ := an.MustPass(c.P, save, locks, []ssa.Instruction{val.(ssa.Instruction)}, nil); !ok {
 			afterLock = false
 		}
@@ -133,11 +140,14 @@ func runC36(c *an.Ctx) {
 		fmt.Sprintf("size comparisons in savePeer: %d; %s", v.GuardSites, v.Witness))
 	// the limit is selected by direction: the right operand is a phi/select of MaxConnInBound / MaxConnOutBound
 	okLimit := false
-	for _, val := range an.FindValues(save, sizeCmp.MatchValue) {
+	for _, val := range findAll(sizeCmp.MatchValue) {
 		names := map[string]bool{}
-		for _, s := range an.AllSources(val.(*ssa.BinOp).Y) {
-			if f := fieldOfLoad(s); f != nil {
-				names[f.Name()] = true
+		// the limit, possibly returned by a private selector helper (boundLimit(index))
+		for _, d := range an.Deref(save, val.(*ssa.BinOp).Y) {
+			for _, s := range an.AllSources(d) {
+				if f := fieldOfLoad(s); f != nil {
+					names[f.Name()] = true
+				}
 			}
 		}
 		if names["MaxConnInBound"] && names["MaxConnOutBound"] {
@@ -155,15 +165,26 @@ func runC36(c *an.Ctx) {
 		return f != nil && f.Name() == "MaxConnInBoundPerIP"
 	}}
 	extra := map[ssa.Value]an.Abs{}
-	for _, val := range an.FindValues(save, func(v ssa.Value) bool {
+	idxName := ""
+	for _, p := range save.Params {
+		if p.Name() == "index" {
+			idxName = "index"
+		}
+	}
+	for _, val := range findAll(func(v ssa.Value) bool {
 		b, ok := v.(*ssa.BinOp)
-		if !ok || b.Op != token.EQL {
+		if !ok || (b.Op != token.EQL && b.Op != token.NEQ) {
 			return false
 		}
 		k, isK := b.Y.(*ssa.Const)
-		return an.AccessPath(b.X) == "index" && isK && k.Value != nil && k.Value.String() == "0"
+		return idxName != "" && an.AccessPathIn(save, b.X) == idxName && isK && k.Value != nil && k.Value.String() == "0"
 	}) {
-		extra[val] = an.ATrue // inbound
+		// inbound: index == INBOUND_INDEX is true, index != INBOUND_INDEX is false
+		if val.(*ssa.BinOp).Op == token.EQL {
+			extra[val] = an.ATrue
+		} else {
+			extra[val] = an.AFalse
+		}
 	}
 	v = an.GuardedX(c.P, save, []*an.Guard{perIP}, extra, isAdd, false)
 	c.Check(v.Holds && v.GuardSites == 1 && len(extra) >= 1, "atomic|savePeer|per-ip-checked-in-section", "for inbound connections the per-IP count is compared with MaxConnInBoundPerIP inside the same critical section", c.P.Rel(save.Pos()), fmt.Sprintf("per-IP comparisons: %d; %s", v.GuardSites, v.Witness))
